@@ -25,7 +25,8 @@ RULE = ("Hypothesis draws small run configurations (K in 2..4, NW<=12, both fron
         "with the independent enumeration of C11; (d) the same call in processes with PYTHONHASHSEED 1 and 2. Non-trivial = "
         "the logged completion order differs from submission order in some round, or the history is non-empty, or >= 2 "
         "workers; the number of distinct completion permutations realised is reported. Distinct by SHA-1 of the case."
-        ' Separately: NW = 240 runs (matrices large enough for a threaded BLAS to change kernels) with 1 vs 2/3/4/8 workers must agree bit for bit.')
+        ' Separately: NW = 240 runs (matrices large enough for a threaded BLAS to change kernels) with 1 vs 2/3/4/8 workers must agree bit for bit.'
+        ' A 4700-row run is repeated from equal RNG states.')
 ASSUMPTIONS = ["the harness chooses delays, not the OS schedule; with K<=4 tasks all K! completion orders are reachable and those realised are counted",
                "bitwise comparison only between executions in the same environment (same machine, libraries, thread settings)"]
 
@@ -258,8 +259,12 @@ def _large_cases(tier):
             "m": 5, "biased": False, "eps": 0, "num_processors": 1, "boundary_regime_flip": False}
     yield dict(base, worker_counts=[4, 2])
     yield dict(base, front="single", N=4, W=60, lengths=[700], data_seed=12, worker_counts=[8, 3])
+    # a long series (more rows than any sub-sampling or chunking threshold is likely to be): twice from the same RNG states
+    yield dict(base, front="single", N=2, W=2, K=3, lengths=[4700], regimes=3, beta=5.0, limit=2, m=5, data_seed=14,
+               worker_counts=[1, 2], short_segments=True)
     if tier == "thorough":
         yield dict(base, N=6, W=50, lengths=[500, 480], data_seed=13, worker_counts=[2, 5, 16])
+        yield dict(base, front="joint", N=1, W=1, K=2, lengths=[5000, 4200], regimes=2, beta=2.0, limit=2, data_seed=15, worker_counts=[1, 3])
 
 
 def execute_large(case, t):
@@ -278,6 +283,8 @@ def execute_large(case, t):
             raise Violation(f"run with {w} workers (NW={cfg['N'] * cfg['W']}) did not return")
         if not tr.ok:
             raise Violation(f"run with {w} workers raised {type(tr.exc).__name__}: {str(tr.exc)[:100]}; with one process it completes")
+        if _digest_of(tr) != d0 and w == 1:
+            raise Violation(f"two single-process runs on equal inputs from equal RNG states returned different results (T={sum(cfg['lengths'])} rows)")
         if _digest_of(tr) != d0:
             diff = max(float(np.max(np.abs(np.asarray(a) - np.asarray(b)))) for a, b in zip(tr.result.markov_random_fields, tr0.result.markov_random_fields))
             raise Violation(f"result depends on the number of worker processes: {w} workers give other bits than one process "
